@@ -149,16 +149,30 @@ def check(ctx) -> None:
         for p in bad:
             ctx.finding("C14-S1", "SyntheticRuleMatcher.%s:text-argument:%s" % (m, p), prog.func(q).loc(), "parameter %r of the composition solver receives text that carries the given molecules; the completion can then depend on the spelling" % p)
     si = prog.func("synrbl.SynRuleImputer.synthetic_rule_imputer.SyntheticRuleImputer.single_impute")
-    ctor = [c for c in calls(si) if (ctx.res.resolve_callee(c, si) or (None, ""))[1] == MATCHER]
-    ctx.require(ctor, "single_impute no longer constructs SyntheticRuleMatcher")
+    # the solver is constructed in single_impute or in a helper it calls (two levels)
+    holders, frontier, seen_h = [], [si], {si.qualname}
+    for _ in range(3):
+        nxt = []
+        for g in frontier:
+            cs = [c for c in calls(g) if (ctx.res.resolve_callee(c, g) or (None, ""))[1] == MATCHER]
+            if cs:
+                holders.append((g, cs))
+            for c in calls(g):
+                t = ctx.res.resolve_callee(c, g)
+                if t and t[0] == "func" and t[1] in prog.functions and t[1] not in seen_h and t[1].startswith("synrbl.SynRuleImputer."):
+                    seen_h.add(t[1])
+                    nxt.append(prog.functions[t[1]])
+        frontier = nxt
+    ctx.require(holders, "neither single_impute nor its helpers construct SyntheticRuleMatcher any more")
     names = tf._names_cache.get(si.qualname, {})
-    for c in ctor:
-        args = list(c.args) + [k.value for k in c.keywords]
-        srcs = [unparse(a) for a in args]
-        ok = any("Diff_formula" in s for s in srcs)
-        ctx.instance("C14-S1", "solver constructed from %s" % srcs, si.loc(c), ok=ok)
-        if not ok:
-            ctx.finding("C14-S1", "SyntheticRuleImputer.single_impute:solver-input", si.loc(c), "the solver is no longer fed the difference formula")
+    for g, cs in holders:
+        gnames = tf._names_cache.get(g.qualname, {})
+        for c in cs:
+            args = list(c.args) + [k.value for k in c.keywords]
+            tainted = [unparse(a) for a in args if any("T" in gnames.get(x, frozenset()) for x in names_in(a))]
+            ctx.instance("C14-S1", "%s constructs the solver from %s (arguments carrying SMILES text: %s)" % (g.name, [unparse(a)[:40] for a in args], tainted or "none"), g.loc(c), ok=not tainted)
+            if tainted:
+                ctx.finding("C14-S1", "SyntheticRuleImputer.%s:solver-input" % g.name, g.loc(c), "the solver is constructed from text that carries the given molecules (%s)" % tainted)
     # side selection
     side = [n for n in own_nodes(si.node) if isinstance(n, ast.Assign) and isinstance(n.value, ast.IfExp) and {const_str(n.value.body), const_str(n.value.orelse)} == {"products", "reactants"}]
     oks = bool(side) and all("Unbalance" in unparse(n.value.test) and not any("T" in names.get(x, frozenset()) for x in names_in(n.value.test) if x != si.params[0] and x != "dict_impute") for n in side)
